@@ -48,7 +48,11 @@ def rows(kind: str):
             continue
         if kind == 'benign7' and '-b7' not in d.name:
             continue
-        if kind in ('benign', 'benign3') and ('-b4' in d.name or '-b5' in d.name or '-b6' in d.name or '-b7' in d.name):
+        if kind == 'hard8' and '-r8' not in d.name:
+            continue
+        if kind == 'benign8' and '-b8' not in d.name:
+            continue
+        if kind in ('benign', 'benign3') and ('-b4' in d.name or '-b5' in d.name or '-b6' in d.name or '-b7' in d.name or '-b8' in d.name):
             continue
         m = json.load(open(d / 'meta.json'))
         if kind == 'benign3' and m['property'] not in ('C01', 'C11', 'C12', 'C15', 'C18', 'C19'):
@@ -65,7 +69,7 @@ def rows(kind: str):
             verdict = '/'.join(own.get('rules', [])) or 'MISSED'
             if others:
                 verdict += ' (also ' + ', '.join(others) + ')'
-        yield d.name, first_sentence(m.get('needs_to_manifest', ''), 420 if kind[-1] in '4567' else 230), verdict
+        yield d.name, first_sentence(m.get('needs_to_manifest', ''), 420 if kind[-1] in '45678' else 230), verdict
 
 
 kind = sys.argv[1] if len(sys.argv) > 1 else 'hard'
